@@ -2,7 +2,7 @@
    Model: Schc.cm_compress / cm_decompress (manager.py), Schc.schc_compress / schc_decompress
    (/repo/microschc.py).  Only statements; proofs in theories/SchcRules.v. *)
 From Coq Require Import ZArith List Bool.
-From MS Require Import PyBase Bits Schc SchcSpec SchcRules.
+From MS Require Import PyBase Bits Schc SchcSpec SchcRules EndToEnd.
 Import ListNotations.
 Open Scope Z_scope.
 
@@ -11,15 +11,12 @@ Theorem c15_nomatch_first parse rules packet d fs pl :
   parse packet = Ok (fs, pl) -> forallb rule_typed rules = true ->
   filter (spec_rule_applies (mkpdesc d fs pl)) rules = [] ->
   cm_compress parse rules packet d FIRST = Exc RuleDescriptorMatchError.
-Proof. intros H1 H2 H3. rewrite (cm_compress_first parse rules packet d fs pl H1 H2). cbv zeta. rewrite H3. reflexivity. Qed.
+Proof. exact (cm_compress_nomatch_first parse rules packet d fs pl). Qed.
 Theorem c15_nomatch_best parse rules packet d fs pl :
   parse packet = Ok (fs, pl) -> forallb rule_typed rules = true ->
   filter (spec_rule_applies (mkpdesc d fs pl)) rules = [] ->
   cm_compress parse rules packet d BEST = Exc RuleDescriptorMatchError.
-Proof.
-  intros H1 H2 H3. pose proof (cm_compress_best parse rules packet d fs pl H1 H2) as H. cbv zeta in H.
-  rewrite H3 in H. apply H. intros r [].
-Qed.
+Proof. exact (cm_compress_nomatch_best parse rules packet d fs pl). Qed.
 (* an unparsable packet: the parser's error (ParserError by C14) *)
 Theorem c15_unparsable parse rules packet d st e : parse packet = Exc e -> cm_compress parse rules packet d st = Exc e.
 Proof. exact (cm_compress_parse_error parse rules packet d st e). Qed.
